@@ -370,9 +370,12 @@ def rule_decoder_owners(ck, R, rule='C06.f'):
     call parse the tail of a damaged frame as a frame of its own.  regp_recv itself is judged by decoder-resync."""
     u = R.u
     cands = []
+    known = sym.KNOWN_FUNCTIONS()
     for fn, fd in sorted(u.functions.items()):
         if fn == 'regp_recv' or not (cast.node_file(fd) or '').endswith(('register-protocol.c', 'register-protocol.h')):
             continue
+        if known and fn not in known:
+            continue        # a helper newer than the rules (a piece split off regp_recv, say) is read where it is called from
         txt = False
         for x in cast.walk(fd):
             if cast.kind(x) == 'MemberExpr' and x.get('name') == 'slip':
